@@ -10,7 +10,24 @@ class ExtractError(Exception):
     """Lost anchor / unsupported construct: reported as exit 2 (undecided)."""
 
 
+_MASK_CACHE = {}
+
+
 def mask(text, keep_strings=False):
+    """Memoised front end of _mask (the compiler expansion is 2.7 MB and is masked many times)."""
+    if len(text) < 20000:
+        return _mask(text, keep_strings)
+    key = (len(text), hash(text), keep_strings)
+    r = _MASK_CACHE.get(key)
+    if r is None:
+        r = _mask(text, keep_strings)
+        if len(_MASK_CACHE) > 8:
+            _MASK_CACHE.clear()
+        _MASK_CACHE[key] = r
+    return r
+
+
+def _mask(text, keep_strings=False):
     """Return text of identical length in which comments (and, unless
     keep_strings, string/char literal contents) are replaced by spaces.
     Newlines are preserved."""
